@@ -92,15 +92,15 @@ Definition ast_of_prod_spans_stmt : Prop :=
 (* parser side: what the parser (repaired production span, either action-span variant) builds
    from the printed text of a well-formed pair *)
 Definition prod_span_ends_after_last_symbol_stmt : Prop :=
-  forall k fa l ag, wf_agram k ag -> wf_layout l ag ->
+  forall k fa fu l ag, wf_agram k ag -> wf_layout l ag ->
     exists A w,
-      run_case true fa true k (print l ag) = Done (TResult A [] w) /\
+      run_case true fa true fu k (print l ag) = Done (TResult A [] w) /\
       prod_spans_core (print l ag) A (all_prods l 0 (ag_rules ag)).
 
 (* the code before 69c4b9b (fp = false): refuted by a production followed by blanks, a comment
    and an action — the span runs up to the brace *)
 Definition prod_span_action_layout_refuted_stmt : Prop :=
   exists l ag, wf_agram KOriginal ag /\ wf_layout l ag /\
-    forall fa, exists A w,
-      run_case true fa false KOriginal (print l ag) = Done (TResult A [] w) /\
+    forall fa fu, exists A w,
+      run_case true fa false fu KOriginal (print l ag) = Done (TResult A [] w) /\
       ~ prod_spans_core (print l ag) A (all_prods l 0 (ag_rules ag)).
